@@ -6,6 +6,8 @@ import MidnightZK.Proofs.C12.Poly
 import MidnightZK.Proofs.C12.Fft
 import MidnightZK.Proofs.C12.Domain
 import MidnightZK.Proofs.C12.FftIter
+import MidnightZK.Proofs.C12.Interp
+import MidnightZK.Proofs.C12.Ifft
 import Mathlib.Algebra.Field.Rat
 import Mathlib.Tactic.NormNum
 import MidnightZK.Model.C12.Curve
@@ -613,6 +615,54 @@ theorem l_i_range_at_node_is_zero (d : Domain F) (hinv : d.omegaInv = d.omega⁻
     d.lIRange (fun a => a⁻¹) (fun a e => a ^ e) (d.omega ^ r) xn [r] = [0] := by
   rw [lIRange_eq d hinv]
   simp
+
+omit [DecidableEq F] in
+/-- `ifft_fft_id`: over a field of characteristic ≠ 2 in which `n = 2^k` is invertible, for every
+pair of thread counts, `ifft(·, ω⁻¹, k, 1/n)` (as used by `lagrange_to_coeff` /
+`extended_to_coeff`) undoes `best_fft(·, ω, k)` (as used by `coeff_to_lagrange` /
+`coeff_to_extended`): the Lagrange and coefficient forms are mutually consistent. (Bit-reversal
+hypotheses as in `best_fft_eq_dft`.) -/
+theorem ifft_fft_id (t1 t2 k : Nat) (a : List F) (ω : F) (hlen : a.length = 2 ^ k)
+    (hω : 1 ≤ k → ω ^ (2 ^ (k - 1)) = -1) (h2 : (1 : F) ≠ -1) (hn : ((2 ^ k : Nat) : F) ≠ 0)
+    (hperm1 : (bitrevPermute k a.toArray).toList = bitrevList k a)
+    (hperm2 : (bitrevPermute k (dft ω a).toArray).toList = bitrevList k (dft ω a)) :
+    (bestFft t1 a ω k).bind (fun e => ifft t2 e ω⁻¹ k ((2 ^ k : Nat) : F)⁻¹) = some a := by
+  rw [best_fft_eq_dft t1 k a ω hlen hω hperm1]
+  simp only [Option.bind_some, ifft]
+  have hdl : (dft ω a).length = 2 ^ k := by simp [dft, hlen]
+  have hωi : 1 ≤ k → ω⁻¹ ^ (2 ^ (k - 1)) = -1 := by
+    intro hk; rw [inv_pow, hω hk, inv_neg, inv_one]
+  rw [best_fft_eq_dft t2 k (dft ω a) ω⁻¹ hdl hωi hperm2]
+  simp only [Option.map_some]
+  congr 1
+  apply List.ext_getElem
+  · simp [dft, hlen]
+  · intro j h1 h2'
+    have hj : j < 2 ^ k := by rw [← hlen]; exact h2'
+    simp only [dft, List.getElem_map, List.getElem_range]
+    have h := idft_dft_entry ω a k hlen hω h2 j hj
+    rw [h]
+    have hg : a.getD j 0 = a[j] := by simp [List.getD, h2']
+    rw [hg]
+    field_simp
+
+/-- `lagrange_interpolate_spec`: for every list of pairwise distinct points and as many values
+(over a field), `lagrange_interpolate` returns a coefficient vector of the same length whose
+polynomial takes the given value at each point (the documented panics — length mismatch, repeated
+point — are the `none` results of the model). -/
+theorem lagrange_interpolate_spec (points evals : List F) (hlen : points.length = evals.length)
+    (hnd : points.Nodup) :
+    ∃ p, lagrangeInterpolate (fun a => a⁻¹) points evals = some p ∧ p.length = points.length ∧
+      ∀ (i : Nat) (hi : i < points.length), horner p points[i] = evals[i]'(hlen ▸ hi) :=
+  lagrangeInterpolate_spec points evals hlen hnd
+
+/-- Non-vacuity over ℚ: the parabola through `(0,1), (1,3), (2,11)` is `1 − X + 3X²`; a repeated
+point is refused. -/
+example : lagrangeInterpolate (fun a : ℚ => a⁻¹) [0, 1, 2] [1, 3, 11] = some [1, -1, 3] ∧
+    lagrangeInterpolate (fun a : ℚ => a⁻¹) [0, 1, 0] [1, 3, 11] = none := by
+  constructor
+  · norm_num [lagrangeInterpolate, List.range, List.range.loop, List.replicate]
+  · decide
 
 /-- `divide_by_vanishing_spec`: `t_evaluations` is built by the loop "push `cur`; `cur *= step`;
 stop when `cur == orig`" (`orig = ζⁿ`, `step = ω_eⁿ`) and then inverted entry-wise after
